@@ -107,8 +107,9 @@ package connectconformance
 //@ func (*testResults).report
 //@   requires wfResults(r) && !held[r.mu] && printer != nil
 //@   requires 0 <= r.totalTestCount && r.totalTestCount <= 4611686018427387904 //# resource assumption: fewer than 2^62 selected cases
-//@   modifies held, atomicI32, map[string]testOutcome, map[string]string, testResults.serverSideband
+//@   modifies held, atomicI32, map[string]testOutcome, map[string]string, testResults.serverSideband, gVerdict
 //@   ensures !held[r.mu]
+//@   assume_ensures gVerdict[r] == result //# ghost bookkeeping only: records the verdict for Run's contract
 //@   ensures @verdict result == ((forall k string :: has(r.outcomes, k) ==> !specBad(r.outcomes[k])) && len(r.outcomes) >= r.totalTestCount)
 //@   loop 0: invariant held[r.mu] && r.outcomes != nil && len(testCaseNames) == rangepos
 //@           invariant forall i int :: 0 <= i && i < rangepos ==> testCaseNames[i] == rangekey(i)
@@ -118,3 +119,23 @@ package connectconformance
 //@           invariant failed > 0 ==> !(forall i int :: 0 <= i && i <= rangeindex ==> isCNR(r.outcomes[testCaseNames[i]]) || !specBad(r.outcomes[testCaseNames[i]]))
 //@           invariant couldNotRun == 0 ==> r.totalTestCount <= len(testCaseNames) && (forall i int :: 0 <= i && i <= rangeindex ==> !isCNR(r.outcomes[testCaseNames[i]]))
 //@           invariant couldNotRun > 0 ==> !(r.totalTestCount <= len(testCaseNames) && (forall i int :: 0 <= i && i <= rangeindex ==> !isCNR(r.outcomes[testCaseNames[i]])))
+
+// Ghost history used to state Run's verdict: what run() returned last and what
+// report() answered for a results object.
+//@ ghost gRunResults: int -> *testResults
+//@ ghost gRunErrNil: int -> bool
+//@ ghost gVerdict: *testResults -> bool
+
+//@ func run
+//@   trusted
+//@   //# orchestration (goroutines, processes): not verified; assumed to hand back a well-formed, unlocked results object
+//@   ensures gRunResults[0] == result_0 && gRunErrNil[0] == (result_1 == nil)
+//@   ensures result_0 != nil ==> wfResults(result_0) && !held[result_0.mu] && 0 <= result_0.totalTestCount && result_0.totalTestCount <= 4611686018427387904
+
+// Run succeeds only if the report verdict was positive and running produced no error.
+//@ func Run
+//@   requires flags != nil && logPrinter != nil && errPrinter != nil
+//@   ensures @verdict result_0 ==> gRunResults[0] != nil && gRunErrNil[0] && gVerdict[gRunResults[0]] && result_1 == nil
+
+// Every suite stored in a suite map is a real message (checked where parseTestSuites fills the map).
+//@ mapvalues map[string]*conformancev1.TestSuite: v != nil
